@@ -26,6 +26,8 @@ def run_dl(dl_path, facts_dir, out_dir, args=(), env=None, timeout=60, souffle=N
     os.makedirs(out_dir, exist_ok=True)
     cmd = [souffle or build.SOUFFLE, "-F", facts_dir, "-D", out_dir] + list(args) + [dl_path]
     rc, out, err = run(cmd, timeout=timeout, env=env)
+    if rc == -999:      # believed only if it repeats with ten times the limit (a loaded machine must not raise an alarm)
+        rc, out, err = run(cmd, timeout=10 * timeout, env=env)
     o = Outcome(); o.rc = rc; o.stdout = out; o.stderr = err; o.kind = classify(rc, err)
     return o
 
